@@ -110,6 +110,11 @@ func init() {
 			Run: func(P *Program, R *Report) { complementRule(P, R) }},
 		Rule{ID: "C04.e", Explain: "the holder's attribute values are read-only for the prover: in the call tree of the disclosure entry points no element of Credential.Attributes or of the builder's attribute list is overwritten, and no integer loaded from them is the receiver of a mutating big.Int method (a proof must report the true values, and the credential must survive being shown).",
 			Run: func(P *Program, R *Report) { attributesReadOnlyRule(P, R) }},
+		Rule{ID: "C04.f", Explain: "the holder can produce a proof that verifies: neither the proving call tree (CreateDisclosureProof, builders, BuildProofList) nor the verification call tree (ProofList.Verify, ProofD.Verify, ProofU.Verify and everything below) has a rejecting branch that is not one of the specified reasons (tables 'prove' and 'show' in checker/rejections_table.txt).",
+			Run: func(P *Program, R *Report) {
+				treeRejectionsRule(P, R, "C04.f", "prove", "the proving call tree")
+				treeRejectionsRule(P, R, "C04.f", "show", "the verification call tree")
+			}},
 		Rule{ID: "C04.d", Explain: "the ProofD built by CreateProof sets each field from its tabled source (symbolic terms for the e and v responses).",
 			Run: func(P *Program, R *Report) { proofDLiteralRule(P, R) }},
 	)
